@@ -1,7 +1,7 @@
 (* C10 proofs, part 12: the transport.  Short transfers (any schedule of positive chunk sizes) do not change what is
-   sent and received; with failures anywhere (any schedule) messenger::transmit returns the genuine answer, an `error`
-   answer (retry with a header object that the failed read had overwritten) or throws - and the server has executed the
-   genuine request at most twice and nothing else. *)
+   sent and received; with failures anywhere (any schedule) messenger::transmit returns the genuine answer to the genuine
+   request or throws - the second attempt sends exactly the original request bytes (since /repo d350cd9) - and the server
+   has executed the genuine request at most twice and nothing else; one failure followed by a working reconnect is masked. *)
 From CppcmsV Require Import Base.Tac C10.Defs C10.Proofs C10.Codec C10.Wrap C10.NetDefs.
 Local Open Scope N_scope.
 
@@ -108,7 +108,7 @@ Proof.
     destruct (h_op h =? op_clear); [inversion H; subst; apply Z; exact R2|].
     destruct (h_op h =? op_store).
     + unfold srv_store in H.
-      destruct (negb ((h_u2 h + h_u3 h + h_u4 h) mod W32 =? h_size h) || (h_u2 h =? 0)); [inversion H; subst; apply Z; exact R1|].
+      destruct (negb (h_u2 h + h_u3 h + h_u4 h =? h_size h) || (h_u2 h =? 0)); [inversion H; subst; apply Z; exact R1|].
       destruct (load_triggers [] (take (h_u4 h) (drop (h_u2 h + h_u3 h) p))); inversion H; subst; apply Z; assumption.
     + destruct (h_op h =? op_stats).
       * destruct (c_stats c). inversion H; subst. split; [vm_compute; intuition discriminate|reflexivity].
@@ -149,131 +149,96 @@ Lemma transmit_schedule_independent ws1 rs1 up ws2 rs2 h data pad now c rh rp c1
   transmit ws1 rs1 up ws2 rs2 h (data ++ pad) now c = (TxReply rh rp, c1).
 Proof.
   intros P1 P2 OK SZ S OKR. unfold transmit.
-  rewrite (attempt_ok ws1 rs1 h (data ++ pad) now c rh rp c1); try assumption; [reflexivity| |].
+  unfold restore. rewrite (attempt_ok ws1 rs1 h (data ++ pad) now c rh rp c1); try assumption; [reflexivity| |].
   - rewrite lenN_app. lia.
   - rewrite SZ, take_app. exact S.
 Qed.
 
 (* ---------- failures anywhere ---------- *)
-Lemma le32_small v : v < 256 -> le32 v = [v; 0; 0; 0].
-Proof. intros H. unfold le32. f_equal; [|f_equal; [|f_equal; [|f_equal]]]; lia. Qed.
-
-(* the header object after a failed read of the answer header that had already transferred j >= 1 bytes: its opcode is
-   the opcode of the ANSWER (answer and request opcodes are below 256: one significant byte) *)
-Lemma overlay_opcode rh h j :
-  h_op rh < 256 -> h_op h < 256 -> 1 <= j -> j <= 40 ->
-  exists g, hdr_parse (overlay (take j (hdr_bytes rh)) (hdr_bytes h)) = Some g /\ h_op g = h_op rh.
+(* the second attempt sends exactly the original request: header and payload, whatever the failed first attempt left in
+   the header object (hb) and whatever lies behind the request string in memory (pad) *)
+Lemma retry_sends_exactly_the_request h data pad hb :
+  hdr_ok h -> h_size h = lenN data -> second_request h hb (data ++ pad) = Some (h, data).
 Proof.
-  intros A B J1 J2. unfold overlay. rewrite lenN_take. unfold lenN. rewrite hdr_bytes_length.
-  replace (N.min j (N.of_nat 40)) with j by lia.
-  unfold hdr_bytes. rewrite (le32_small _ A), (le32_small _ B).
-  set (ra := le32 (h_size rh) ++ _). set (rb := le32 (h_size h) ++ _).
-  assert (length ra = 36%nat) as LA by reflexivity. assert (length rb = 36%nat) as LB by reflexivity.
-  clearbody ra rb.
-  assert (exists x, length x = 36%nat /\
-            take j ([h_op rh; 0; 0; 0] ++ ra) ++ drop j ([h_op h; 0; 0; 0] ++ rb) = h_op rh :: 0 :: 0 :: 0 :: x) as (x & LX & ->).
-  { unfold take, drop.
-    destruct (N.to_nat j) as [|[|[|[|n]]]] eqn:EJ; [lia| | | |].
-    - exists rb. split; [exact LB|reflexivity].
-    - exists rb. split; [exact LB|reflexivity].
-    - exists rb. split; [exact LB|reflexivity].
-    - exists (firstn n ra ++ skipn n rb). split; [|reflexivity].
-      rewrite app_length, firstn_length, skipn_length. lia. }
-  do 36 (destruct x as [|? x]; [discriminate LX|]). destruct x; [|discriminate LX].
-  eexists. split; [reflexivity|]. cbn [h_op]. unfold de32. lia.
+  intros OK SZ. unfold second_request, restore, retry_request. rewrite (hdr_roundtrip h OK), SZ, take_app. reflexivity.
+Qed.
+
+(* one attempt under ANY schedules, started from the request header: a complete answer is the genuine one; after a failure the
+   server has handled the request or not, nothing else *)
+Lemma attempt_any ws rs h data pad now cc a b cc1 :
+  hdr_ok h -> h_size h = lenN data -> srv_handle now h data cc = (a, b, cc1) -> hdr_ok a ->
+  match attempt ws rs (hdr_bytes h) (data ++ pad) now cc with
+  | (AReply x y, c') => x = a /\ y = b /\ c' = cc1
+  | (AFail _, c') => c' = cc \/ c' = cc1
+  end.
+Proof.
+  intros OK SZ S OKA. destruct (srv_handle_reply _ _ _ _ _ _ _ S) as [_ LR].
+  unfold attempt. rewrite (hdr_roundtrip h OK). rewrite SZ, take_app, S.
+  destruct (sock_xfer ws (hdr_bytes h ++ data) (40 + lenN data)) as [[[ok g] s2] r] eqn:X.
+  destruct ok; [|left; reflexivity].
+  destruct (sock_xfer rs (hdr_bytes a ++ b) 40) as [[[ok2 g2] s3] r3] eqn:X2.
+  destruct ok2; [|right; reflexivity].
+  apply xfer_true in X2. destruct X2 as (G2 & R3 & _).
+  change 40 with (lenN (hdr_bytes a)) in G2, R3. rewrite take_app in G2. rewrite drop_app in R3. subst g2 r3.
+  destruct (sock_xfer s3 b (h_size a)) as [[[ok3 g3] s4] r4] eqn:X3.
+  destruct ok3; [|right; reflexivity].
+  apply xfer_true in X3. destruct X3 as (G3 & _ & _). rewrite <- LR, take_all in G3. subst g3. repeat split.
+Qed.
+
+(* messenger::transmit under ANY transfer schedules (failures anywhere, reconnect refused or not): with
+   (rh,rp,c1) the server's handling of the genuine request and (rh2,rp2,c2) its handling a second time,
+   - an answer that transmit returns is the genuine answer to the first or to the second execution - nothing else;
+   - whatever happens the server has executed the genuine request zero, one or two times and nothing else. *)
+Lemma transmit_any_schedule ws1 rs1 up ws2 rs2 h data pad now c rh rp c1 rh2 rp2 c2 :
+  hdr_ok h -> h_size h = lenN data ->
+  srv_handle now h data c = (rh, rp, c1) -> hdr_ok rh ->
+  srv_handle now h data c1 = (rh2, rp2, c2) -> hdr_ok rh2 ->
+  match transmit ws1 rs1 up ws2 rs2 h (data ++ pad) now c with
+  | (TxReply a b, c') => (a = rh /\ b = rp /\ c' = c1) \/ (a = rh2 /\ b = rp2 /\ c' = c2)
+  | (TxExn, c') => c' = c \/ c' = c1 \/ c' = c2
+  end.
+Proof.
+  intros OK SZ S1 OK1 S2 OK2. unfold transmit, restore.
+  pose proof (attempt_any ws1 rs1 h data pad now c rh rp c1 OK SZ S1 OK1) as A1.
+  destruct (attempt ws1 rs1 (hdr_bytes h) (data ++ pad) now c) as [[x y|hb] c'] eqn:E1.
+  - destruct A1 as (-> & -> & ->). left. repeat split.
+  - destruct up.
+    + destruct A1 as [-> | ->].
+      * pose proof (attempt_any ws2 rs2 h data pad now c rh rp c1 OK SZ S1 OK1) as A2.
+        destruct (attempt ws2 rs2 (hdr_bytes h) (data ++ pad) now c) as [[x y|hb2] c''].
+        -- destruct A2 as (-> & -> & ->). left. repeat split.
+        -- destruct A2 as [-> | ->]; [left; reflexivity|right; left; reflexivity].
+      * pose proof (attempt_any ws2 rs2 h data pad now c1 rh2 rp2 c2 OK SZ S2 OK2) as A2.
+        destruct (attempt ws2 rs2 (hdr_bytes h) (data ++ pad) now c1) as [[x y|hb2] c''].
+        -- destruct A2 as (-> & -> & ->). right. repeat split.
+        -- destruct A2 as [-> | ->]; [right; left; reflexivity|right; right; reflexivity].
+    + destruct A1 as [-> | ->]; [left; reflexivity|right; left; reflexivity].
+Qed.
+
+(* ONE failure anywhere in the first attempt, followed by a reconnect that works and a second attempt without failure, is
+   masked: the caller gets the genuine answer (to the first execution if the request had not reached the server, else to the
+   second), never an exception, never an `error` *)
+Lemma one_failure_is_masked ws1 rs1 ws2 rs2 h data pad now c rh rp c1 rh2 rp2 c2 :
+  positive_sched ws2 -> positive_sched rs2 -> hdr_ok h -> h_size h = lenN data ->
+  srv_handle now h data c = (rh, rp, c1) -> hdr_ok rh ->
+  srv_handle now h data c1 = (rh2, rp2, c2) -> hdr_ok rh2 ->
+  transmit ws1 rs1 true ws2 rs2 h (data ++ pad) now c = (TxReply rh rp, c1) \/
+  transmit ws1 rs1 true ws2 rs2 h (data ++ pad) now c = (TxReply rh2 rp2, c2).
+Proof.
+  intros P1 P2 OK SZ S1 OK1 S2 OK2. unfold transmit, restore.
+  pose proof (attempt_any ws1 rs1 h data pad now c rh rp c1 OK SZ S1 OK1) as A1.
+  assert (h_size h <= lenN (data ++ pad)) as LE by (rewrite lenN_app; lia).
+  destruct (attempt ws1 rs1 (hdr_bytes h) (data ++ pad) now c) as [[x y|hb] c'] eqn:E1.
+  - destruct A1 as (-> & -> & ->). left. reflexivity.
+  - destruct A1 as [-> | ->].
+    + left. rewrite (attempt_ok ws2 rs2 h (data ++ pad) now c rh rp c1); try assumption; [reflexivity|].
+      rewrite SZ, take_app. exact S1.
+    + right. rewrite (attempt_ok ws2 rs2 h (data ++ pad) now c1 rh2 rp2 c2); try assumption; [reflexivity|].
+      rewrite SZ, take_app. exact S2.
 Qed.
 
 Definition request_op (o : N) : Prop := o < 5.
 
-(* messenger::transmit under ANY transfer schedules (failures anywhere, reconnect refused or not): with
-   (rh,rp,c1) the server's handling of the genuine request and (rh2,rp2,c2) its handling a second time,
-   - an answer that transmit returns is the genuine answer to the first or to the second execution, or `error`
-     (the retry sent a header object already overwritten by the answer header: refused by the server, no effect);
-   - whatever happens the server has executed the genuine request zero, one or two times and nothing else. *)
-Lemma transmit_any_schedule ws1 rs1 up ws2 rs2 h data pad now c rh rp c1 rh2 rp2 c2 :
-  hdr_ok h -> h_size h = lenN data -> request_op (h_op h) ->
-  srv_handle now h data c = (rh, rp, c1) -> hdr_ok rh ->
-  srv_handle now h data c1 = (rh2, rp2, c2) -> hdr_ok rh2 ->
-  match transmit ws1 rs1 up ws2 rs2 h (data ++ pad) now c with
-  | (TxReply a b, c') =>
-      (a = rh /\ b = rp /\ c' = c1) \/ (a = rh2 /\ b = rp2 /\ c' = c2) \/ (a = hdr0 op_error /\ b = [] /\ c' = c1)
-  | (TxExn, c') => c' = c \/ c' = c1 \/ c' = c2
-  end.
-Proof.
-  intros OK SZ RQ S1 OK1 S2 OK2.
-  destruct (srv_handle_reply _ _ _ _ _ _ _ S1) as [RO1 LR1].
-  destruct (srv_handle_reply _ _ _ _ _ _ _ S2) as [RO2 LR2].
-  assert (forall ws rs cc a b cc1, srv_handle now h data cc = (a, b, cc1) -> hdr_ok a ->
-            match attempt ws rs (hdr_bytes h) (data ++ pad) now cc with
-            | (AReply x y, c') => x = a /\ y = b /\ c' = cc1
-            | (AFail hb, c') => (hb = hdr_bytes h /\ (c' = cc \/ c' = cc1)) \/
-                                (c' = cc1 /\ exists j, 1 <= j <= 40 /\ hb = overlay (take j (hdr_bytes a)) (hdr_bytes h))
-            end) as ATT.
-  { intros ws rs cc a b cc1 S OKA. destruct (srv_handle_reply _ _ _ _ _ _ _ S) as [_ LR].
-    unfold attempt. rewrite (hdr_roundtrip h OK). rewrite SZ, take_app, S.
-    destruct (sock_xfer ws (hdr_bytes h ++ data) (40 + lenN data)) as [[[ok g] s2] r] eqn:X.
-    destruct ok; [|left; split; [reflexivity|left; reflexivity]].
-    destruct (sock_xfer rs (hdr_bytes a ++ b) 40) as [[[ok2 g2] s3] r3] eqn:X2.
-    destruct ok2.
-    - apply xfer_true in X2. destruct X2 as (G2 & R3 & _).
-      change 40 with (lenN (hdr_bytes a)) in G2, R3. rewrite take_app in G2. rewrite drop_app in R3. subst g2 r3.
-      destruct (sock_xfer s3 b (h_size a)) as [[[ok3 g3] s4] r4] eqn:X3.
-      destruct ok3.
-      + apply xfer_true in X3. destruct X3 as (G3 & _ & _). rewrite <- LR, take_all in G3. subst g3. repeat split.
-      + right. split; [reflexivity|]. exists 40. split; [lia|].
-        change 40 with (lenN (hdr_bytes a)). rewrite take_all. unfold overlay.
-        unfold lenN at 1. rewrite hdr_bytes_length. unfold drop. change (N.to_nat (N.of_nat 40)) with 40%nat.
-        rewrite skipn_all2 by (rewrite hdr_bytes_length; lia). rewrite app_nil_r. reflexivity.
-    - apply xfer_false in X2. destruct X2 as (j & J1 & G2 & _).
-      assert (g2 = take j (hdr_bytes a)) as ->.
-      { subst g2. unfold take. rewrite firstn_app. rewrite hdr_bytes_length.
-        replace (N.to_nat j - 40)%nat with 0%nat by lia. cbn [firstn]. apply app_nil_r. }
-      destruct (N.eq_dec j 0) as [->|NZ].
-      + left. split; [reflexivity|right; reflexivity].
-      + right. split; [reflexivity|]. exists j. split; [lia|reflexivity]. }
-  unfold transmit.
-  pose proof (ATT ws1 rs1 c rh rp c1 S1 OK1) as A1.
-  destruct (attempt ws1 rs1 (hdr_bytes h) (data ++ pad) now c) as [[x y|hb] c'] eqn:E1.
-  - destruct A1 as (-> & -> & ->). left. repeat split.
-  - destruct up.
-    + destruct A1 as [[-> [-> | ->]]|[-> (j & J & ->)]].
-      * (* request not delivered: genuine retry, first execution *)
-        pose proof (ATT ws2 rs2 c rh rp c1 S1 OK1) as A2.
-        destruct (attempt ws2 rs2 (hdr_bytes h) (data ++ pad) now c) as [[x y|hb2] c''].
-        -- destruct A2 as (-> & -> & ->). left. repeat split.
-        -- destruct A2 as [[_ [-> | ->]]|[-> _]]; [left; reflexivity|right; left; reflexivity|right; left; reflexivity].
-      * (* executed, no byte of the answer read: genuine retry, second execution *)
-        pose proof (ATT ws2 rs2 c1 rh2 rp2 c2 S2 OK2) as A2.
-        destruct (attempt ws2 rs2 (hdr_bytes h) (data ++ pad) now c1) as [[x y|hb2] c''].
-        -- destruct A2 as (-> & -> & ->). right. left. repeat split.
-        -- destruct A2 as [[_ [-> | ->]]|[-> _]]; [right; left; reflexivity|right; right; reflexivity|right; right; reflexivity].
-      * (* executed, the header object holds j >= 1 bytes of the answer header: the retry is refused *)
-        destruct (overlay_opcode rh h j) as (g & PG & OG); [unfold reply_op in RO1; lia|unfold request_op in RQ; lia|lia|lia|].
-        unfold attempt. rewrite PG.
-        destruct (sock_xfer ws2 _ (40 + h_size g)) as [[[ok gg] s2] r] eqn:X.
-        destruct ok; [|right; left; reflexivity].
-        rewrite srv_handle_refuses_reply_op by (rewrite OG; exact RO1).
-        destruct (sock_xfer rs2 (hdr_bytes (hdr0 op_error) ++ []) 40) as [[[ok2 g2] s3] r3] eqn:X2.
-        destruct ok2; [|right; left; reflexivity].
-        apply xfer_true in X2. destruct X2 as (G2 & R3 & _). subst g2 r3.
-        change (h_size (hdr0 op_error)) with 0. unfold sock_xfer. change (N.to_nat 0) with 0%nat. cbn [xfer N.eqb].
-        right. right. repeat split.
-    + destruct A1 as [[_ [-> | ->]]|[-> _]]; [left; reflexivity|right; left; reflexivity|right; left; reflexivity].
-Qed.
-
-(* what tcp_cache::fetch makes of an `error` answer: not found (cache_over_ip::fetch then drops the key from L1 and
-   reports a miss) - never a value *)
+(* what tcp_cache::fetch makes of an `error` answer (unknown opcode, refused frame): not found - never a value *)
 Lemma error_answer_is_a_miss tif want : dec_fetch tif want (hdr0 op_error) [] = FNotFound.
 Proof. destruct tif; reflexivity. Qed.
-
-(* the defect in the retry: after a failed read that had already overwritten the size field, the second attempt sends
-   h.size bytes starting at data.c_str() for the ANSWER's size - more than the request string holds *)
-Lemma garbled_retry_overreads :
-  exists h data rh j g,
-    hdr_ok h /\ h_size h = lenN data /\ request_op (h_op h) /\ hdr_ok rh /\ reply_op (h_op rh) /\ 1 <= j <= 40 /\
-    hdr_parse (overlay (take j (hdr_bytes rh)) (hdr_bytes h)) = Some g /\ lenN data < h_size g.
-Proof.
-  exists (fst (enc_fetch [107] 0 true false)), [107],
-         (mkH op_data 300 0 0 5 0 2000 0 298 2 ), 8, (mkH op_data 300 0 0 0 0 1 1 0 0).
-  vm_compute. repeat split; try reflexivity; try discriminate.
-Qed.
